@@ -48,8 +48,8 @@ def w_tilde_data_imaging_from(
         efficient calculation of the data vector.
     """
 
-    kernel_shift_y = -(kernel_native.shape[1] // 2)
-    kernel_shift_x = -(kernel_native.shape[0] // 2)
+    kernel_shift_y = -(kernel_native.shape[0] // 2)
+    kernel_shift_x = -(kernel_native.shape[1] // 2)
 
     image_pixels = len(native_index_for_slim_index)
 
@@ -294,8 +294,8 @@ def w_tilde_curvature_value_from(
 
     curvature_value = 0.0
 
-    kernel_shift_y = -(kernel_native.shape[1] // 2)
-    kernel_shift_x = -(kernel_native.shape[0] // 2)
+    kernel_shift_y = -(kernel_native.shape[0] // 2)
+    kernel_shift_x = -(kernel_native.shape[1] // 2)
 
     ip_y_offset = ip0_y - ip1_y
     ip_x_offset = ip0_x - ip1_x
